@@ -67,7 +67,7 @@ def handle (j : Json) : Json :=
       ("pinned", planJson (planGen ts true args dflt single)),
       ("cli", planJson (planGen ts false cargs dflt single)),
       ("cli_args", ofToks cargs),
-      ("cli_crash", Json.bool (jstr j "entry" != "run_tasks" && processArgsCrashes args)),
+      ("pinned_cli_crash", Json.bool (jstr j "entry" != "run_tasks" && (pinnedCliArgs args).isNone)),
       ("cli_pos", mkArr ((match selArgs cargs dflt with
           | none => []
           | some a => pfPos pts (a.length + 1) [] a).map fun (n, vs) => mkArr [ofTok n, ofToks vs])),
